@@ -47,7 +47,7 @@ def search_counterexample(idx, lem, seed, n=600):
         return '(ofb32 %d)' % v if k == 'f32' else '(ofb64 %d)' % v if k == 'f64' else ('true' if v else 'false') if k == 'bool' else '(%d)' % v
     binders = core.binders(lem.vars, getattr(lem, 'ops', 'O'))
     ty = getattr(lem, 'ty', 'res (valO O)'); outf = 'outb' if ty == 'bool' else 'out'
-    imports = 'Definition outb (b:bool) : list Z := [if b then 1 else 0].\nDefinition cx_l (O:Ops) %s : %s := %s.\nDefinition cx_r (O:Ops) %s : %s := %s.\n' % (binders, ty, lem.lhs, binders, ty, lem.rhs)
+    imports = 'From Glam Require Import FloatTricks.\nOpen Scope Z_scope.\nDefinition outb (b:bool) : list Z := [if b then 1 else 0].\nDefinition cx_l (O:Ops) %s : %s := %s.\nDefinition cx_r (O:Ops) %s : %s := %s.\n' % (binders, ty, lem.lhs, binders, ty, lem.rhs)
     fmt = outf + ' (cx_l IEEEr %s) ++ [-777] ++ ' + outf + ' (cx_r IEEEr %s)'
     terms = [fmt % (' '.join(lit(k, v) for (_, k), v in zip(lem.vars, a)), ' '.join(lit(k, v) for (_, k), v in zip(lem.vars, a))) for a in assigns]
     res, errs = core.eval_model(terms, 'search_' + lem.name, imports=imports, chunk=100)
